@@ -239,7 +239,7 @@ Qed.
 (* three kinds of steps with respect to the thread table *)
 Definition child_of (s : state) (id j : nat) (d : key) (sync h : bool) : thread :=
   {| trun := trun (thr s id); tkey := Some d; tcaller := tkey (thr s id); thost := Some (id, j); tsync := sync;
-     tpc := RLoad; tobj := 0; tslots := []; tacc := []; thold := h; tcanc := false; tpub := 0 |}.
+     tpc := RLoad; tobj := 0; tslots := []; tacc := []; thold := h; tcanc := false; tpub := 0; tdisc := [] |}.
 
 Lemma step_kinds s id e : step_local w s id = Some e ->
   (e_slot e = None /\ e_spawn e = None) \/
@@ -337,14 +337,14 @@ Proof.
   - local_cases H; rewrite ?Epc in *; cbn [in_resolve] in *;
       rewrite ?after_resolve_nc by assumption;
       rewrite ?do_release_hold by (rewrite Hh; first [reflexivity | cbn; apply Hso; reflexivity]);
-      cbn [e_self E Esem set_pc set_pc_hold set_pc_slots set_pc_obj set_pc_pub leave_resolve tpc tslots in_resolve];
+      cbn [e_self E Esem set_pc set_pc_hold set_pc_slots set_pc_obj set_pc_pub set_pc_disc leave_resolve tpc tslots in_resolve];
       intros g' Hg'; try discriminate; inversion Hg'; subst; eauto.
     + rewrite repeat_length. eauto.
     + rewrite set_slot_length. eauto.
   - local_cases H; rewrite ?Epc in *;
       rewrite ?after_resolve_nc by assumption;
       rewrite ?do_release_hold by (rewrite Hh; first [reflexivity | cbn; apply Hso; reflexivity]);
-      cbn [e_self E Esem set_pc set_pc_hold set_pc_slots set_pc_obj set_pc_pub leave_resolve tpc tslots];
+      cbn [e_self E Esem set_pc set_pc_hold set_pc_slots set_pc_obj set_pc_pub set_pc_disc leave_resolve tpc tslots];
       intros g' j' nw' Hg'; try discriminate; inversion Hg'; subst.
     + destruct (Hsl _ eq_refl) as (grp & Hg & Hlen). rewrite Heqo in Hg. inversion Hg; subst grp.
       split; [|lia]. intros i0 Hi0. apply (Hed _ _ eq_refl). lia.
@@ -354,7 +354,7 @@ Proof.
   - local_cases H; rewrite ?Epc in *;
       rewrite ?after_resolve_nc by assumption;
       rewrite ?do_release_hold by (rewrite Hh; first [reflexivity | cbn; apply Hso; reflexivity]);
-      cbn [e_self E Esem set_pc set_pc_hold set_pc_slots set_pc_obj set_pc_pub leave_resolve tpc tslots];
+      cbn [e_self E Esem set_pc set_pc_hold set_pc_slots set_pc_obj set_pc_pub set_pc_disc leave_resolve tpc tslots];
       intros g' j' Hg'; try discriminate; inversion Hg'; subst.
     all: try (apply (Hed _ _ eq_refl)).
     intros j Hj. rewrite repeat_length in Hj. apply nth_error_repeat. assumption.
@@ -451,7 +451,7 @@ Qed.
 Definition slot_write (tp : thread) (i : nat) (r : dres) (h : option bool) : thread :=
   {| trun := trun tp; tkey := tkey tp; tcaller := tcaller tp; thost := thost tp; tsync := tsync tp;
      tpc := tpc tp; tobj := tobj tp; tslots := set_slot (tslots tp) i r; tacc := tacc tp;
-     thold := match h with Some b => b | None => thold tp end; tcanc := tcanc tp; tpub := tpub tp |}.
+     thold := match h with Some b => b | None => thold tp end; tcanc := tcanc tp; tpub := tpub tp; tdisc := tdisc tp |}.
 
 Lemma sum_to_upd2 n (h : nat -> nat) a va b vb : a < n -> b < n -> a <> b ->
   sum_to n (upd (upd h a va) b vb) + h a + h b = sum_to n h + va + vb.
